@@ -135,6 +135,7 @@ void Hist::checkFrameRelation(const std::string& op, const Snap& cur, size_t tar
 bool Hist::opFrame(int how) {
     size_t n = prev.frames.size();
     if (how == 1 && n == 0) return false;
+    if (!wild && prev.h.sub > 5000) return false;      // (a history that set tens of thousands of sub-frames per frame judges the counts only)
     long used = int0(prev, "POINT", "USED"), aused = int0(prev, "ANALOG", "USED");
     bool gaps = hasGaps(prev);
     if (!wild && how == 2 && n == 0 && rng.chance(92)) return false;       // extending an empty data set makes frame 0 a gap (recorded known finding); keep it rare
@@ -142,7 +143,7 @@ bool Hist::opFrame(int how) {
     int forceSub = -1;
     if (!wild && aused > 0 && prev.h.sub == 0) { if (rng.chance(55)) return false; forceSub = rng.range(1, 2); }   // channels declared but the header ratio is 0 (no analog rate, or a rate below half the point rate)   // channels declared but no analog rate yet: the README frame would carry no sub-frames (undocumented shape)
     bool contentless = false;
-    if (used == 0 && aused == 0 && !wild && how == 0 && o.profile == "c06" && rng.chance(50)) contentless = true;   // place-holder frames on an object with nothing declared (any rate): "every frame content" includes none
+    if (used == 0 && aused == 0 && !wild && how == 0 && (o.profile == "c06" || o.profile == "c08") && rng.chance(50)) contentless = true;   // place-holder frames on an object with nothing declared (any rate): "every frame content" includes none
     else if (used == 0 && aused == 0) {
         if (float0(prev, "POINT", "RATE") == 0.0f && !wild) return false;
         if (prev.h.sub > 0 && how == 0 && o.profile == "c08" && rng.chance(40)) contentless = true;   // the README frame of an object with nothing declared: empty sub-frames only
@@ -207,9 +208,12 @@ bool Hist::opMutateCaller() {
     if (callerFrames.empty()) return false;
     size_t k = rng.below(callerFrames.size());
     Frame& f = callerFrames[k];
-    int how = rng.range(0, 5); std::string hn;
+    int how = rng.range(0, 6); std::string hn;
     try {
         switch (how) {
+            case 6: hn = "Frame::add(same_points,no_analogs)"; if (f.points().nbPoints() == 0 || f.analogs().nbSubframes() == 0) return false;
+                { Points p; for (size_t i = 0; i < f.points().nbPoints(); ++i) p.point(f.points().point(i)); f.add(p, Analogs());
+                  bump("c06_caller_frame_checked"); if (f.analogs().nbSubframes() != 0 && !wild) { log.viol("C08", "caller_frame_keeps_dropped_content", "Frame::add(points, Analogs()) on a frame that held analogs: the frame still has " + std::to_string((unsigned long long)f.analogs().nbSubframes()) + " sub-frame(s)"); log.viol("C06", "caller_frame_loses_content/kept_old_analogs", "Frame::add(points, Analogs()) left the old analogs in the frame"); } } break;
             case 0: hn = "points_nonConst.point_nonConst.xyz"; if (f.points().nbPoints() == 0) return false; { Point& p = f.points_nonConst().point_nonConst(rng.below(f.points().nbPoints())); p.x(bitsf(genFloatBits(rng, false)) + 1.f); p.y(-7777.f); p.residual(42.f); } break;
             case 1: hn = "points_nonConst.point(add)"; { Point p; p.name("caller_side_extra"); p.x(1); p.y(2); p.z(3); f.points_nonConst().point(p); } break;
             case 2: hn = "analogs_nonConst.channel_nonConst.data"; if (f.analogs().nbSubframes() == 0 || f.analogs().subframe(0).nbChannels() == 0) return false; f.analogs_nonConst().subframe_nonConst(0).channel_nonConst(0).data(-31337.f); break;
@@ -322,6 +326,9 @@ bool Hist::opDeclarePoint() {
     std::string name = dup ? labels[rng.below(labels.size())] : freshName("P", labels);
     bool padded = !dup && rng.chance(15);
     std::string arg = padded ? name + std::string((size_t)rng.range(1, 9), ' ') : name;   /* up to more blanks than characters */
+    if (!dup && !wild && o.profile == "c10" && rng.chance(3)) { name = freshName("P", labels) + std::string((size_t)rng.range(240, 300), 'w'); arg = name; padded = false; beyondInt16 = true; }   // a name longer than a file can hold (255): fine in memory, saving is C17's business
+    { bool haveEmpty = false; for (size_t i = 0; i < labels.size(); ++i) if (labels[i].empty()) haveEmpty = true;
+      if (!dup && !wild && !haveEmpty && n == 0 && o.profile == "c11" && rng.chance(5)) { name = ""; arg = std::string((size_t)rng.range(1, 4), ' '); padded = true; } }   // a name of blanks only: the trimmed name is the empty one
     log.pre("point"); Outcome oc; VF_TRY(oc, obj->point(arg));
     log.ev("declare_point", "name=\"" + esc(arg) + "\" frames=" + std::to_string((unsigned long long)n), oc); bump("op:declare_point");
     if (!wild) {
@@ -389,12 +396,13 @@ bool Hist::opPointColumn() {
     // deviations: 0 valid, 1 frames-1, 2 frames+1, 3 no frames supplied, 4 no points, 5 existing name, 6 two columns/second duplicates an existing, 7 two columns/second duplicates the first, (wild) 8 later frame has fewer points
     int dev = 0; if (rng.chance(35) || n == 0) { dev = rng.range(1, 9); if ((dev == 8 || dev == 9) && n < 2) dev = 7; }   // 8 = ragged: documented neither way, only C10 (unchanged after a throw) is judged
     size_t k = (dev == 6 || dev == 7 || dev == 9 || rng.chance(25)) ? 2 : 1;
+    bool thirdDup = (dev == 7 && rng.chance(50)); if (thirdDup) k = 3;      // N1, N2, N1: "a name already exists" also when the repeat is not adjacent
     std::vector<std::string> names; std::vector<std::string> taken = labels;
     for (size_t i = 0; i < k; ++i) { names.push_back(freshName("C", taken)); taken.push_back(names.back()); }
     std::string altName = freshName("Z", taken);
     if (dev == 5 && !labels.empty()) names[0] = labels[rng.below(labels.size())]; else if (dev == 5) dev = 0;
     if (dev == 6 && !labels.empty()) names[1] = labels[rng.below(labels.size())]; else if (dev == 6) dev = 7;
-    if (dev == 7) names[1] = names[0];
+    if (dev == 7) names[thirdDup ? 2 : 1] = names[0];
     size_t nf = n; if (dev == 1) { if (n == 0) dev = 3; else nf = n - 1; } if (dev == 2) nf = n + 1; if (dev == 3) nf = 0;
     if (n == 0 && dev == 0) dev = 3;
     // two ways a caller builds the column: frame by frame, or a vector of n copies of one empty frame filled in place (the copies of a
@@ -436,8 +444,9 @@ bool Hist::opChannelColumn() {
     // 0 valid, 1 frames-1, 2 frames+1, 3 sub-1, 4 sub+1, 5 no channels, 6 existing name, 7 second duplicates existing, 8 second duplicates first, (wild) 9 no frames
     int dev = 0; if (rng.chance(35)) dev = rng.range(1, wild ? 9 : 8);
     bool ragged = !emptyData && dev == 0 && n >= 1 && nsub >= 2 && rng.chance(12);   // one later sub-frame one channel short: documented neither way, only C10 is judged
+    bool raggedFrame = !ragged && !emptyData && dev == 0 && n >= 2 && rng.chance(10);  // ... or every sub-frame of a LATER frame one channel short (needs 2 columns)
     if (emptyData && !wild) dev = 9;
-    size_t k = (dev == 7 || dev == 8 || rng.chance(25)) ? 2 : 1;
+    size_t k = (dev == 7 || dev == 8 || raggedFrame || rng.chance(25)) ? 2 : 1;
     std::vector<std::string> names; std::vector<std::string> taken = labels;
     for (size_t i = 0; i < k; ++i) { names.push_back(freshName("K", taken)); taken.push_back(names.back()); }
     if (dev == 6 && !labels.empty()) names[0] = labels[rng.below(labels.size())]; else if (dev == 6) dev = 0;
@@ -452,12 +461,12 @@ bool Hist::opChannelColumn() {
     for (size_t f = 0; f < nf; ++f) {
         Analogs an;
         size_t nsHere = (lateOnly && f != lateFrame) ? nsub : ns;
-        for (size_t s = 0; s < nsHere; ++s) { SubFrame sf; size_t kk = dev == 5 ? 0 : k; if (ragged && f == nf - 1 && s == ns - 1) kk = k - 1; for (size_t i = 0; i < kk; ++i) { Channel c; c.name(names[i]); c.data(bitsf(genFloatBits(rng, specialFloats))); sf.channel(c); } an.subframe(sf); }
+        for (size_t s = 0; s < nsHere; ++s) { SubFrame sf; size_t kk = dev == 5 ? 0 : k; if (ragged && f == nf - 1 && s == ns - 1) kk = k - 1; if (raggedFrame && f == nf - 1) kk = k - 1; for (size_t i = 0; i < kk; ++i) { Channel c; c.name(names[i]); c.data(bitsf(genFloatBits(rng, specialFloats))); sf.channel(c); } an.subframe(sf); }
         if (inPlace) { frames[f].add(an); nc[f] = takeFrame(frames[f]).subs; } else { Frame fr; fr.add(an); frames.push_back(fr); nc[f] = takeFrame(fr).subs; }
     }
     if (!wild) for (size_t f = 0; f < nf; ++f) { bump("c06_caller_frame_checked"); if (takeFrame(frames[f]).subs != nc[f]) { log.viol("C06", "caller_frame_loses_content/column", std::string("frame ") + std::to_string((unsigned long long)f) + " of a channel column " + (inPlace ? "(vector of copies filled in place) " : "") + "no longer holds the samples it was given"); break; } }
     static const char* dn[] = {"valid", "frames-1", "frames+1", "sub-1", "sub+1", "no_channels", "existing_name", "second_existing", "second_duplicates_first", "no_frames"};
-    std::ostringstream a; a << "dev=" << (ragged ? "ragged_subframe" : dn[dev]) << (lateOnly ? "@one_later_frame" : "") << " columns=" << k << " supplied=" << nf << "x" << ns << " n=" << n << " sub=" << nsub;
+    std::ostringstream a; a << "dev=" << (ragged ? "ragged_subframe" : raggedFrame ? "ragged_last_frame" : dn[dev]) << (lateOnly ? "@one_later_frame" : "") << " columns=" << k << " supplied=" << nf << "x" << ns << " n=" << n << " sub=" << nsub;
     log.pre("analog"); Outcome oc; VF_TRY(oc, obj->analog(frames));
     log.ev("channel_column", a.str(), oc); bump("op:channel_column"); bump(std::string("coldev:") + dn[dev] + (oc.threw ? ":refused" : ":accepted"));
     if (!wild && chOverGaps) { if (!oc.threw) offSpec = true; }
@@ -466,9 +475,9 @@ bool Hist::opChannelColumn() {
         bool defect = (dev >= 1 && dev <= 8) || (dev == 9 && emptyData);
         if (defect && !oc.threw) log.viol("C07", std::string("column/defect_accepted/channel_column/") + dn[dev] + (lateOnly ? "@one_later_frame" : ""), std::string("analog(frames) accepted although ") + dn[dev] + (lateOnly ? " in one of the later supplied frames" : ""));
         else if (defect && !satisfies(oc.cls, "invalid_argument")) log.viol("C07", std::string("column/wrong_class/channel_column/") + dn[dev] + (lateOnly ? "@one_later_frame" : "") + "/" + oc.cls, "refused with " + oc.cls + ": " + oc.what);
-        else if (dev == 0 && !ragged && oc.threw) log.viol("C07", "column/valid_refused/channel_column/" + oc.cls, "valid channel column refused: " + oc.what);
-        if (!oc.threw && dev == 0 && !ragged) { Snap cur = take(*obj); checkColumnRelation(*this, "channel_column", cur, std::vector<std::vector<SPoint> >(), nc); }
-        if (!oc.threw && ragged) offSpec = true;
+        else if (dev == 0 && !ragged && !raggedFrame && oc.threw) log.viol("C07", "column/valid_refused/channel_column/" + oc.cls, "valid channel column refused: " + oc.what);
+        if (!oc.threw && dev == 0 && !ragged && !raggedFrame) { Snap cur = take(*obj); checkColumnRelation(*this, "channel_column", cur, std::vector<std::vector<SPoint> >(), nc); }
+        if (!oc.threw && (ragged || raggedFrame)) offSpec = true;
     }
     afterMutator("channel_column", oc);
     return true;
